@@ -1232,7 +1232,7 @@ Section Programs.
 
   Theorem set_admin_events d u adm s :
     p_set_admin None d u adm = (ROk, s) ->
-    events s = [] \/
+    events s = [EFsync LBaseDir] \/
     exists cur, user_exists d u = ExYes cur /\ cur <> adm /\
       events s = [ERename (LFile (u ++ ext_of cur)) (LFile (u ++ ext_of adm)); EFsync LBaseDir].
   Proof.
